@@ -189,6 +189,19 @@ pub fn generate(prop: Prop, seed: u64, run: u64, thorough: bool) -> RunSpec {
             }
         }
     }
+    if prop == Prop::C05 && spec.mode.is_none() {
+        // an interrupted clone_from and continued use of its destination is where defect D8
+        // lived: half of the runs that contain a clone_from get a panic inside it (decided by
+        // a generator of its own, so that everything else about the run stays as it was)
+        let mut r2 = Rng::new(run_seed(seed, prop, run) ^ 0xC10E_F20A_D8D8_D8D8);
+        let clones: Vec<usize> = spec.ops.iter().enumerate().filter(|(_, o)| matches!(o.kind(), "clone_from" | "set_clone_from")).map(|(i, _)| i).collect();
+        if !clones.is_empty() && r2.chance(1, 2) {
+            let at = *r2.pick(&clones);
+            if !spec.faults.iter().any(|f| f.at == at) {
+                spec.faults.push(Fault { at, nth: 1 + r2.below(12), site: None });
+            }
+        }
+    }
     let zst = spec.cfg.elem.is_zst();
     let zst_drop = spec.cfg.elem == elems::ElemClass::ZstDrop;
     if prop == Prop::C05 && (!zst || zst_drop) && spec.mode.is_none() && rng.chance(if zst_drop { 3 } else { 1 }, 8) {
